@@ -319,6 +319,51 @@ static void fmt_case(uint64_t idx, void *vctx)
                   c->df.name, c->sf.name, c->mode ? c->mf.name : "-", exact ? "exact" : "tolerance");
 }
 
+
+/* ---------------- source and mask sharing pixel storage ----------------
+ * An x8b8g8r8 (x8r8g8b8) source and an a8b8g8r8 (a8r8g8b8) mask over the same memory select the library's "pixbuf"
+ * fast paths when their offsets agree; with any offsets the result must be what the equations give for
+ * source = colour with alpha 1, mask alpha = the stored alpha at the MASK's position. */
+static void alias_case(uint64_t idx, void *vctx)
+{
+    static const pixman_format_code_t sfm[2] = { PIXMAN_x8b8g8r8, PIXMAN_x8r8g8b8 }, mfm[2] = { PIXMAN_a8b8g8r8, PIXMAN_a8r8g8b8 };
+    static const pixman_format_code_t dfm[5] = { PIXMAN_a8r8g8b8, PIXMAN_x8r8g8b8, PIXMAN_r5g6b5, PIXMAN_a8b8g8r8, PIXMAN_x8b8g8r8 };
+    static const char *dfn[5] = { "a8r8g8b8", "x8r8g8b8", "r5g6b5", "a8b8g8r8", "x8b8g8r8" };
+    static const int ops[4] = { PIXMAN_OP_OVER, PIXMAN_OP_SRC, PIXMAN_OP_ADD, PIXMAN_OP_IN_REVERSE };
+    static const int offs[3] = { 0, 1, 3 };
+    int fam = (int)(idx % 2); idx /= 2; int di = (int)(idx % 5); idx /= 5; int oi = (int)(idx % 4); idx /= 4; int sx = offs[idx % 3]; idx /= 3; int mx = offs[idx % 3]; idx /= 3;
+    int cfg = (idx % 2) ? PH_CFG_GENERAL : PH_CFG_DEFAULT; idx /= 2; int w = (idx % 2) ? 19 : 4;
+    enum { W = 32 };
+    uint32_t buf[W]; for (int i = 0; i < W; i++) buf[i] = B8[(i * 5) % 12] << 24 | B8[(i * 7 + 1) % 12] << 16 | B8[(i * 11 + 2) % 12] << 8 | B8[(i * 3 + 5) % 12];
+    ph_fmt_t sf, mf, df; ph_fmt_describe(sfm[fam], "", &sf); ph_fmt_describe(mfm[fam], "", &mf); ph_fmt_describe(dfm[di], dfn[di], &df);
+    uint32_t dbuf[W], d0[W]; memset(dbuf, 0, sizeof dbuf);
+    for (int i = 0; i < W; i++) { uint32_t v = B8[(i * 7 + 3) % 12] << 24 | B8[(i + 4) % 12] << 16 | B8[(i * 5 + 6) % 12] << 8 | B8[(i * 9) % 12]; ph_put_pixel(dbuf, df.bpp, i, ph_from_8888(&df, v)); }
+    memcpy(d0, dbuf, sizeof d0);
+    ph_set_cfg(cfg);
+    pixman_image_t *src = pixman_image_create_bits(sfm[fam], W, 1, buf, W * 4), *msk = pixman_image_create_bits(mfm[fam], W, 1, buf, W * 4);
+    pixman_image_t *dst = pixman_image_create_bits(dfm[di], W, 1, dbuf, W * 4);
+    pixman_image_composite32(ops[oi], src, msk, dst, sx, 0, mx, 0, 2, 0, w, 1);
+    vf_count_libcalls(1);
+    pixman_image_unref(src); pixman_image_unref(msk); pixman_image_unref(dst);
+    char cfgn[64]; uint32_t dm = ph_defined_mask(&df); uint64_t nt = 0;
+    for (int i = 0; i < W; i++) {
+        uint32_t got = ph_get_pixel(dbuf, df.bpp, i), before = ph_get_pixel(d0, df.bpp, i), exp = before;
+        if (i >= 2 && i < 2 + w) {
+            uint32_t s8 = ph_to_8888(&sf, buf[i - 2 + sx]), m8 = ph_to_8888(&mf, buf[i - 2 + mx]), d8 = ph_to_8888(&df, before);
+            exp = ph_from_8888(&df, rc_exact_pixel(ops[oi], RC_MASK_UNIFIED, s8, m8, d8));
+            if ((got & dm) != (before & dm)) nt++;
+        } else dm = (df.bpp == 32) ? 0xffffffffu : ((1u << df.bpp) - 1), dm = dm;
+        uint32_t cmpmask = (i >= 2 && i < 2 + w) ? ph_defined_mask(&df) : (df.bpp == 32 ? 0xffffffffu : ((1u << df.bpp) - 1));
+        if ((got & cmpmask) != (exp & cmpmask)) {
+            vf_violation("c01-shared-storage-source-mask", "op=%s dest %s, source %s and mask %s over the SAME storage, src_x=%d mask_x=%d width=%d cfg=[%s]: destination pixel %d = %x, equations give %x",
+                         rc_op_name(ops[oi]), dfn[di], fam ? "x8r8g8b8" : "x8b8g8r8", fam ? "a8r8g8b8" : "a8b8g8r8", sx, mx, w, ph_cfg_name(cfg, cfgn, sizeof cfgn), i, got, exp);
+            return;
+        }
+    }
+    vf_count_eval((uint64_t)w); vf_count_nontrivial(nt);
+    if (!vf_in_confirm) vf_outcome(vf_hash64(dbuf, sizeof dbuf, 5));
+}
+
 typedef struct { fmt_ctx c; uint64_t first, count; } fmt_job;
 static fmt_job *fmt_jobs; static int fmt_njobs, fmt_cap; static uint64_t fmt_total;
 static void fmt_add(fmt_ctx *c, uint64_t strips)
@@ -411,7 +456,7 @@ int main(int argc, char **argv)
                     uint64_t total = fmt_npix(&c.sf) * (c.mode ? fmt_npix(&c.mf) : 1) * fmt_npix(&c.df);
                     /* cap very large products by restricting to the first strips (still a deterministic, complete sub-box of the product) */
                     uint64_t strips = (total + FW - 1) / FW;
-                    uint64_t cap = th ? 4096 : 256;
+                    uint64_t cap = th ? 2048 : 256;
                     if (strips > cap) strips = cap;
                     fmt_add(&c, strips);
                     if (th && mi == 0) { c.cfg = PH_CFG_GENERAL; fmt_add(&c, strips); }
@@ -420,8 +465,9 @@ int main(int argc, char **argv)
         }
     }
     vf_space_run("format-triples", fmt_total, fmt_case_all, NULL);
+    vf_space_run("shared-storage-source-and-mask", 2 * 5 * 4 * 3 * 3 * 2 * 2, alias_case, NULL);
     vf_bounds = th ? "exact: 13 ops x {none: full 2^32 (sc,sa,dc,da); unified: (sc,sa,ma) full 2^24 x (dc,da) in B8^2 + alpha cube; CA: (sc,mc,ma) full 2^24 x (sa,dc,da) in B6^3 and (sc,sa,mc) full 2^24 x (dc,da) in T^2 x ma in B6 [default chain; boundary alphabets under general-only]}; "
-                     "tolerance: 40 ops x 3 modes x B8^4..6 + full (sa,da) plane; formats: 53 ops x 17x17 format pairs x 5 mask presentations x per-channel {0,1,mid,max-1,max} (first 4096 strips of 128); cfgs default+general"
+                     "tolerance: 40 ops x 3 modes x B8^4..6 + full (sa,da) plane; formats: 53 ops x 17x17 format pairs x 5 mask presentations x per-channel {0,1,mid,max-1,max} (first 2048 strips of 128); cfgs default+general"
                    : "exact: 13 ops x 3 mask modes x B8^4..6 + (sa,ma,da) full 2^24 cube; tolerance: 40 ops x 3 modes x B8^4..5 (CA: B8^4 x B6^2) + full (sa,da) plane x B6^2; "
                      "formats: 11 ops x 17x17 format pairs (masked: a third) x per-channel 5-value alphabets (first 256 strips of 128); cfgs default+general";
     return vf_finish();
